@@ -28,7 +28,7 @@ from . import gen
 from .pyfun_tr import Unsupported, find_function
 
 OUT = os.path.join(gen.GEN_DIR, 'Gen_C13.v')
-HEAD = (gen.HEADER % 'src/nunavut/_utilities.py, lang/properties.yaml, lang/_language.py, cli/runners.py, docs/languages.rst'
+HEAD = (gen.HEADER % 'src/nunavut/_utilities.py, lang/properties.yaml, lang/_language.py, lang/cpp/__init__.py, cli/runners.py, docs/languages.rst'
         + 'From Verif Require Import ConfigBase.\nOpen Scope N_scope.\n\n')
 
 PRELUDE = '''(* KeyError monad used inside `try: ... except KeyError: pass` *)
@@ -56,6 +56,7 @@ class DictTr:
         self.known_mutators = known_mutators   # unparsed callee -> gallina function returning (target', result)
         self.rec_name = rec_name
         self.n = 0
+        self.copies: typing.List[str] = []   # which copy functions the translated body calls
 
     def fresh(self, base: str) -> str:
         self.n += 1
@@ -76,10 +77,11 @@ class DictTr:
                 return self._isinstance(v, tv, e.args[1]), 'bool'
             if f == 'cast' and len(e.args) == 2:
                 return self.pexpr(e.args[1], env)
-            if f == 'copy.copy' and len(e.args) == 1:
+            if f in ('copy.copy', 'copy.deepcopy') and len(e.args) == 1 and not e.keywords:
                 v, tv = self.pexpr(e.args[0], env)
                 self._want(tv, 'cv')
-                return '(cv_copy %s)' % v, 'cv'
+                self.copies.append(f)
+                return '(%s %s)' % ('cv_copy' if f == 'copy.copy' else 'cv_deepcopy', v), 'cv'
             if self.rec_name is not None and f == self.fname and len(e.args) == 2 and not e.keywords:
                 a, ta = self.pexpr(e.args[0], env)
                 b, tb = self.pexpr(e.args[1], env)
@@ -298,8 +300,14 @@ def translate_deep_update(tree: ast.Module) -> str:
     def fall(_env):
         raise Unsupported('control reaches the end of deep_update')
     body = tr.block(list(fn.body), env, fall, lambda v, e: v)
+    if len(tr.copies) != 1:
+        raise Unsupported('deep_update is expected to copy the source exactly once (found %s)' % tr.copies)
     return ('(* deep_update with its recursive call abstracted as `rec` (open recursion) *)\n'
-            'Definition deep_update_step (rec : cv -> cv -> cv) (target source : cv) : cv :=\n  %s.' % body)
+            'Definition deep_update_step (rec : cv -> cv -> cv) (target source : cv) : cv :=\n  %s.\n\n'
+            '(* how a source mapping that replaces a non-mapping target value is copied: copy.deepcopy (true) or the shallow\n'
+            '   copy.copy (false).  Value-wise both are the identity; the object-identity models of ConfigAlias.v take this flag. *)\n'
+            'Definition deep_update_copies_deeply : bool := %s.'
+            % (body, 'true' if tr.copies == ['copy.deepcopy'] else 'false'))
 
 
 # ---------------------------------------------------------------------------------------------
@@ -470,6 +478,116 @@ def translate_cli(wk: typing.Dict[str, str]) -> str:
             'Definition cli_calls : list cli_call :=\n  [%s].' % ('\n  '.join(opts), ';\n   '.join(calls)))
 
 
+
+# ---------------------------------------------------------------------------------------------
+# T2 (shape-pinned): cpp Language._validate_language_options
+# ---------------------------------------------------------------------------------------------
+
+def translate_cpp_validate() -> str:
+    """The function is matched statement by statement against the five shapes it is made of (the option keys and the
+    enum values are read from the source); any other statement, order or condition fails closed."""
+    tree = gen.parse_repo('src/nunavut/lang/cpp/__init__.py')
+    fn = find_function(tree, 'Language', '_validate_language_options')
+    if _params(fn, True) != ['defaults', 'options'] or fn.decorator_list:
+        raise Unsupported('signature of cpp _validate_language_options')
+    body = [st for st in fn.body if not (isinstance(st, ast.Expr) and isinstance(st.value, ast.Constant))]
+    if len(body) != 5:
+        raise Unsupported('cpp _validate_language_options has %d statements, 5 expected' % len(body))
+
+    def try_fetch(st: ast.stmt, rhs_re: str) -> typing.Tuple[str, str]:
+        if not (isinstance(st, ast.Try) and len(st.body) == 1 and isinstance(st.body[0], ast.Assign) and len(st.handlers) == 1
+                and not st.orelse and not st.finalbody and isinstance(st.handlers[0].type, ast.Name) and st.handlers[0].type.id == 'KeyError'
+                and len(st.handlers[0].body) == 1 and isinstance(st.handlers[0].body[0], ast.Raise)
+                and ast.unparse(st.handlers[0].body[0].exc).startswith('ValueError(')):
+            raise Unsupported('try shape: %s' % ast.unparse(st).splitlines()[0])
+        a = st.body[0]
+        m = re.fullmatch(rhs_re, ast.unparse(a.value))
+        if not (m and len(a.targets) == 1 and isinstance(a.targets[0], ast.Name)):
+            raise Unsupported('fetch %s' % ast.unparse(a))
+        return a.targets[0].id, m.group(1)
+
+    std_var, k_std = try_fetch(body[0], r"options\['([\w-]+)'\]")
+    st = body[1]
+    if not (isinstance(st, ast.If) and not st.orelse and ast.unparse(st.test) == '%s in defaults' % std_var and len(st.body) == 1
+            and ast.unparse(st.body[0]) == 'options.update(defaults[%s])' % std_var):
+        raise Unsupported('group application: %s' % ast.unparse(st).splitlines()[0])
+    cc_var, k_cc = try_fetch(body[2], r"ConstructorConvention\.from_string\(options\['([\w-]+)'\]\)")
+    st = body[3]
+    m = None
+    if isinstance(st, ast.If) and not st.orelse and len(st.body) == 1 and isinstance(st.body[0], ast.Raise):
+        m = re.fullmatch(re.escape(cc_var) + r" != ConstructorConvention\.DEFAULT and \('([\w-]+)' not in options or not options\['([\w-]+)'\]\)",
+                         ast.unparse(st.test))
+    if not m or m.group(1) != m.group(2):
+        raise Unsupported('allocator check: %s' % ast.unparse(st).splitlines()[0])
+    k_alloc = m.group(1)
+    if ast.unparse(body[4]) != 'return options':
+        raise Unsupported('return: %s' % ast.unparse(body[4]))
+
+    # the enum and from_string
+    enum = None
+    for n in tree.body:
+        if isinstance(n, ast.ClassDef) and n.name == 'ConstructorConvention':
+            enum = n
+    if enum is None:
+        raise Unsupported('ConstructorConvention not found')
+    values, default = [], None
+    for n in enum.body:
+        if isinstance(n, ast.Assign) and len(n.targets) == 1 and isinstance(n.targets[0], ast.Name) and isinstance(n.value, ast.Constant) \
+                and isinstance(n.value.value, str):
+            values.append(n.value.value)
+            if n.targets[0].id == 'DEFAULT':
+                default = n.value.value
+    fs = find_function(tree, 'ConstructorConvention', 'from_string')
+    fsb = [x for x in fs.body if not (isinstance(x, ast.Expr) and isinstance(x.value, ast.Constant))]
+    want = ("for e in ConstructorConvention:\n    if s.lower().replace('_', '-') == e.value:\n        return e", "raise ValueError(")
+    if not (len(fsb) == 2 and ast.unparse(fsb[0]) == want[0] and ast.unparse(fsb[1]).startswith(want[1])) or default is None:
+        raise Unsupported('ConstructorConvention.from_string shape')
+    for n in enum.body:   # __eq__/__ne__ overrides other than the known one would change `!=`
+        if isinstance(n, ast.FunctionDef) and n.name == '__ne__':
+            raise Unsupported('ConstructorConvention.__ne__ overridden')
+    return ('(* nunavut.lang.cpp Language._validate_language_options (None = it raises) *)\n'
+            'Definition cpp_key_std : list N := %s.\nDefinition cpp_key_ctor : list N := %s.\nDefinition cpp_key_alloc : list N := %s.\n'
+            'Definition cpp_ctor_values : list (list N) := [%s].\nDefinition cpp_ctor_default : list N := %s.\n\n'
+            '(* `if language_standard in defaults: options.update(defaults[language_standard])` *)\n'
+            'Definition cpp_apply_group (defaults options : list (list N * cv)) (language_standard : cv) : option (list (list N * cv)) :=\n'
+            '  match cv_str language_standard with\n'
+            '  | Some k => match dget k defaults with\n'
+            '              | Some (Node g) => Some (dupdate options g)\n'
+            '              | Some (Leaf _ _) => None\n'
+            '              | None => Some options\n'
+            '              end\n'
+            '  | None => Some options\n'
+            '  end.\n\n'
+            '(* ConstructorConvention.from_string *)\n'
+            'Definition cpp_ctor_from_string (v : cv) : option (list N) :=\n'
+            '  match v with\n'
+            '  | Leaf false (AStr s) => if str_in (lower_dash s) cpp_ctor_values then Some (lower_dash s) else None\n'
+            '  | _ => None\n'
+            '  end.\n\n'
+            'Definition cpp_validate_language_options (defaults options : list (list N * cv)) : option (list (list N * cv)) :=\n'
+            '  match dget cpp_key_std options with\n'
+            '  | None => None\n'
+            '  | Some language_standard =>\n'
+            '    match cpp_apply_group defaults options language_standard with\n'
+            '    | None => None\n'
+            '    | Some options =>\n'
+            '      match dget cpp_key_ctor options with\n'
+            '      | None => None\n'
+            '      | Some cc =>\n'
+            '        match cpp_ctor_from_string cc with\n'
+            '        | None => None\n'
+            '        | Some ctor_convention =>\n'
+            '          if negb (str_eqb ctor_convention cpp_ctor_default)\n'
+            '             && (negb (dmem cpp_key_alloc options)\n'
+            '                 || negb (match dget cpp_key_alloc options with Some v => cv_truthy v | None => false end))\n'
+            '          then None else Some options\n'
+            '        end\n'
+            '      end\n'
+            '    end\n'
+            '  end.'
+            % (coq_str(k_std), coq_str(k_cc), coq_str(k_alloc), '; '.join(coq_str(v) for v in values), coq_str(default)))
+
+
 def gen_c13() -> typing.Tuple[bool, str]:
     try:
         ut = gen.parse_repo('src/nunavut/_utilities.py')
@@ -491,6 +609,7 @@ def gen_c13() -> typing.Tuple[bool, str]:
         parts.append('(* docs/languages.rst: the option group each -std shorthand is documented to stand for (keys) *)\n'
                      'Definition cpp_documented_group_keys : list (list N * list (list N)) :=\n  [%s].'
                      % ';\n   '.join('(%s, [%s])' % (coq_str(k), '; '.join(coq_str(x) for x in v)) for k, v in docs.items()))
+        parts.append(translate_cpp_validate())
         parts.append(translate_cli(wk))
     except (Unsupported, SyntaxError, OSError, KeyError, TypeError) as ex:
         gen.write_if_changed(OUT, HEAD + '(* translator failed closed: %s *)\n' % str(ex).replace('*)', '* )'))
